@@ -74,8 +74,7 @@ Section Doc.
       + rewrite (nm_null _ E), marshal_null_tag; [now rewrite E|]. unfold syn_tag. cbn [base_meta]. rewrite E. reflexivity.
       + now rewrite (nm_other_lit _ E).
     - rewrite (nm_str _ L). pose proof (std_tag_str _ Hs L) as Ht.
-      unfold YamlTree.marshal_str. cbn [base_meta]. rewrite (norm_tag_same tag_str m Ht).
-      destruct (needs_quote _ _ _); reflexivity.
+      rewrite (marshal_str_tag_eq quote_words pf). cbn [base_meta]. now rewrite (norm_tag_same tag_str m Ht).
   Qed.
 
   Lemma nm_value m : is_lit_tag (y_tag m) = false -> y_value (nm m) = y_value m.
